@@ -45,6 +45,8 @@ pub struct Reading {
     /// the note's first block is a heading: its text is the note's title
     pub title: Option<String>,
     pub first_block_seen: bool,
+    /// number of list instances
+    pub lists: usize,
 }
 
 pub fn strip_md(dest: &str) -> String {
@@ -78,7 +80,7 @@ impl<'a> Rd<'a> {
         self.text[..off.min(self.text.len())].matches('\n').count()
     }
     fn ctx(&self) -> Vec<String> {
-        self.path.iter().filter(|p| p.starts_with("quote") || *p == "ul" || *p == "ol" || p.starts_with("item")).cloned().collect()
+        self.path.iter().filter(|p| p.starts_with("quote") || p.starts_with("ul") || p.starts_with("ol") || p.starts_with("item")).cloned().collect()
     }
     fn flush(&mut self, kind: &str) {
         if let Some(b) = self.buf.take() {
@@ -148,6 +150,7 @@ pub fn read(text: &str, dir: &str) -> Reading {
     let mut holder = String::new();
     let mut heading_as_para = false;
     let mut quote_counter = 0usize;
+    let mut list_counter = 0usize;
     let mut title_pending = false;
     let mut title_buf = String::new();
     let mut para_first_in_item = false;
@@ -222,7 +225,9 @@ pub fn read(text: &str, dir: &str) -> Reading {
                     if let Some(s) = r.item_started.last_mut() {
                         *s = true;
                     }
-                    r.path.push(if n.is_some() { "ol".into() } else { "ul".into() });
+                    list_counter += 1;
+                    r.out.lists += 1;
+                    r.path.push(if n.is_some() { format!("ol{}", list_counter) } else { format!("ul{}", list_counter) });
                     r.item_counter.push(0);
                 }
                 Tag::Item => {
